@@ -157,6 +157,29 @@ def check(prop, scn, seed, models=None, skipped=None, extra_probes=None, judge_a
                 d = [(k, want.get(k, 0), got.get(k, 0)) for k in sorted(set(want) | set(got)) if want.get(k) != got.get(k)]
                 findings.append({"property": prop, "rule": "task-requests-differ-from-model", "witness": None,
                                  "detail": "(fn, payload, model, engine): %r" % (d[:4],)})
+    if prop == "C05" and spec["compare"] and not timing_sensitive and not findings:
+        # The concurrency bound seen from the workers, at any nesting depth: with MaxConcurrency n the items of a later
+        # batch cannot be requested before the batch before them is through.  The reference model is the zero-latency
+        # run, a lower bound for every request instant (each instant is a max/plus expression of delays and latencies):
+        # equal instants under the zero-latency schedules, never earlier under the others.  An iteration launched beyond
+        # the bound shows as a request that comes too early.
+        from checks import timing
+        exact = scn["config"].get("latency", "zero") == "zero"
+        for k, ex in enumerate(scn["executions"]):
+            mo = models.get(ex["name"])
+            if mo is None or mo.unsupported or mo.status is None or mo.flags.tie or mo.flags.cancel_tie or \
+                    mo.flags.fanout_failures or mo.flags.deadline_tie or ex.get("via", "api") != "api":
+                continue
+            t0 = timing.start_time(res, ex["name"])
+            fns = set(r[1] for r in mo.requests)
+            prefix = "x%d" % k if fns and all(f.startswith("x%d" % k) for f in fns) else ""
+            if t0 is None or (prefix == "" and len(scn["executions"]) > 1):
+                continue
+            arn = E.EX_ARN % (ex["machine"], ex["name"])
+            probes["request-instants-compared"] = probes.get("request-instants-compared", 0) + 1
+            for rule, detail in timing.compare_instants(mo, res, arn, t0, exact, fn_prefix=prefix):
+                if rule in ("request-instant", "request-early", "request-count"):
+                    findings.append({"property": prop, "rule": rule, "witness": None, "detail": "%s: %s" % (ex["name"], detail)})
     if prop == "C09" and not findings:
         findings.extend(history_api_check(prop, res, scn))
     if res.sim.errors:
@@ -249,6 +272,8 @@ def run_one(item, extra):
             return run_hand(prop, item[1])
         if kind == "plain-input":
             return run_plain_input(prop, item[1])
+        if kind == "wide":
+            return run_wide(prop, item[1])
         if kind == "nested-batches":
             return run_nested_batches(prop, item[1])
         if kind == "caught":
@@ -493,6 +518,32 @@ def run_nested_batches(prop, i):
     return check(prop, scn, seed, extra_probes={"batched-map-instances-side-by-side": 1}, judge_all=True)
 
 
+def run_wide(prop, i):
+    """Item arrays well beyond the generator's sizes (41..100 items) under a MaxConcurrency around and above 40 - the AWS
+    limit for inline Maps, a number an implementation may know - and under none."""
+    seed = common.run_seed(8900000 + i)
+    rng = random.Random(seed)
+    fn_arn = E.GM.FN_ARN
+    n = rng.choice([41, 48, 64, 100])
+    mc = rng.choice([0, 39, 40, 41, 45, n - 1, n, n + 1])
+    items = list(range(100, 100 + n))
+    dm = dict((json.dumps(v), rng.choice([0.5, 1.0, 1.0, 2.0])) for v in items)
+    d = {"StartAt": "M", "States": {
+        "M": {"Type": "Map", "ItemsPath": "$.items", "MaxConcurrency": mc, "ResultPath": "$.r", "Next": "A",
+              rng.choice(["ItemProcessor", "Iterator"]): {"StartAt": "T", "States": {
+                  "T": {"Type": "Task", "Resource": fn_arn + "w", "End": True}}}},
+        "A": {"Type": "Task", "Resource": fn_arn + "after", "InputPath": "$.r", "End": True}}}
+    if mc == 0 and rng.random() < 0.5:
+        del d["States"]["M"]["MaxConcurrency"]
+    cfg = E.policy_cfg(rng.choice(ALL_POLICIES + ["canonical"] * 3))
+    cfg["execution_ttl"] = 3600
+    scn = {"machines": {"m0": {"definition": d, "type": rng.choice(["STANDARD", "EXPRESS"]), "family": "wide-map"}},
+           "executions": [{"machine": "m0", "input": {"items": items}, "name": "e0"}],
+           "script": {"w": [{"ok": {"op": "wrap"}, "delay_map": dm}], "after": [{"ok": {"op": "len"}}]},
+           "functions": ["after", "w"], "config": cfg}
+    return check(prop, scn, seed, extra_probes={"wide-map:%d-items" % n: 1}, judge_all=True)
+
+
 def run_loop(prop, i):
     seed, scn = loop_scenario(i)
     return check(prop, scn, seed, extra_probes={"fan-out-re-entered-in-a-loop": 1}, judge_all=True)
@@ -545,7 +596,8 @@ def main_for(prop, argv, extra_items=()):
         pi = perm_items(4)
         items = pi + [("loop", j) for j in range(200 if tier == "quick" else 8000)] + \
             [("caught", j) for j in range(250 if tier == "quick" else 10000)] + \
-            [("nested-batches", j) for j in range(200 if tier == "quick" else 8000)] + items
+            [("nested-batches", j) for j in range(200 if tier == "quick" else 8000)] + \
+            [("wide", j) for j in range(24 if tier == "quick" else 600)] + items
         extra_cov["permutation_slice"] = {"exhaustive": True, "cases": len(pi),
                                           "what": "every completion order of k<=4 branches/items x Parallel and Map "
                                                   "with every MaxConcurrency 0..k+1"}
